@@ -68,6 +68,6 @@ def handleExpand (toks : List String) : String :=
       | some t => idsOf t.descendants
     let reach := idsOf (reachAll c.tuples c.subject)
     let reachd := idsOf (reachWithin c.tuples (effDepth c.rdepth c.gdepth).toNat c.subject)
-    s!"tree={tree}\tcalls={rs.2.calls}\tleaves={natSetStr leaves}\tcheckleaves={natSetStr reach}\tcuts={rs.2.cuts}\treach={natSetStr reach}\treachd={natSetStr reachd}"
+    s!"tree={tree}\tcalls={rs.2.calls}\tleaves={natSetStr leaves}\tcheckleaves={natSetStr reach}\tcuts={rs.2.cuts}\treach={natSetStr reach}\treachd={natSetStr reachd}\teff={effDepth c.rdepth c.gdepth}"
 
 end Driver
